@@ -330,8 +330,14 @@ class Flow:
         if k == 'ArraySubscriptExpr':
             ks = tu.kids(n)
             b, i = self.val(ks[0], s, fr), self.val(ks[1], s, fr)
-            return ('elem', b, i)
+            ct = (tu.sd(n).get('ct') or '').replace('const ', '').strip()
+            tr = type_range(ct)
+            esize = 8 if ct.endswith('*') else None if tr is None else max(1, (int(tr[1] - tr[0]).bit_length() + 7) // 8)
+            return ('elem', b, i, esize)      # esize: size of one element in bytes when known
         if k in CALLS:
+            rl = s.get(('retloc', fr.key, n['id']))
+            if rl is not None:
+                return rl               # call of a function that returned a reference to this location
             # smart pointer dereference yields the pointee: *p / p.operator*()
             v = s.get(('ret', fr.key, n['id']))
             if v is not None:
@@ -380,6 +386,9 @@ class Flow:
         if k == 'CXXThisExpr':
             return fr.this if fr.this is not None else Poly.atom(('this',))
         if k in CALLS:
+            rl = s.get(('retloc', fr.key, n['id']))
+            if rl is not None:
+                return self.load(rl, s, sd.get('ct'))
             v = s.get(('ret', fr.key, n['id']))
             if v is not None:
                 return v
@@ -472,7 +481,7 @@ class Flow:
 
     def _leave(self, s, fr):
         key = fr.key
-        return s.drop(lambda k: k == '$ret' or (isinstance(k, tuple) and k[0] in ('env', 'ret', 'init') and k[1] == key))
+        return s.drop(lambda k: k == '$ret' or (isinstance(k, tuple) and k[0] in ('env', 'ret', 'init', 'retloc') and k[1] == key))
 
     def analyse(self, ti, fn, this=None, facts=None, env=None):
         """run entry function `fn` of translation unit index ti; -> list of Path (returning and terminated)"""
@@ -525,7 +534,8 @@ class Flow:
             # the comparison is computed with unsigned arithmetic that can wrap here: its mathematical reading is not the
             # C++ one, so nothing is learnt from it (both outcomes stay possible) and the path becomes approximate
             return [s.approx('condition `%s` at %s uses unsigned arithmetic that can wrap (`%s`)'
-                             % (fr.tu.show(c), fr.tu.loc(c), ws[0][1]))]
+                             % (fr.tu.show(c), fr.tu.loc(c), ws[0][1]))
+                    .event(('wrap-in-condition', ws[0][1], fr.tu.loc(c), fr.tu.show(c)))]
         b = self.condnf(c, s, fr)
         want = (si == 0)
         t = decide_bool(b, lambda a: self.bounds(s, a))
@@ -684,10 +694,41 @@ class Flow:
                 ks = tu.kids(n)
                 if ks:
                     s = self.note_wraps(ks[0], s, fr)
+                    if (fr.fn.get('fty') or '').split('(')[0].rstrip().endswith('&'):
+                        rl = self.loc_of(ks[0], s, fr)        # returns a reference: remember which location it designates
+                        if rl is not None and rl[0] != 'envvar':
+                            s = s.set('$retloc', rl)
                     return [s.set('$ret', self.val(ks[0], s, fr))]
                 return [s]
             if k == 'CXXThrowExpr':
                 return [s.event(('throw', tu.sd(n).get('tty', '?'), tu.loc(n))).set('$thrown', True)]
+            return [s]
+        if e[0] == 'AD':
+            # end of scope of a local: unique_ptr locals destroy their pointee, class objects run their destructor
+            ty = (e[3] or '').replace('const ', '')
+            cur = s.get(('env', fr.key, e[1]))
+            if cur is None:
+                return [s]
+            if ty.startswith('std::unique_ptr<'):
+                T = _first_targ(ty)
+                return self.destroy_pointee(T, cur, s, fr, tu.fn_loc(fr.fn)) if T else [s]
+            if self.dtor_effect(ty):
+                return self.run_dtor(ty, cur, s, fr, tu.fn_loc(fr.fn))
+            return [s]
+        if e[0] == 'MD' and fr.this is not None:
+            # implicit member destruction at the end of a destructor
+            rec = tu.records.get(fr.fn.get('recid'))
+            fld = next((x for x in (rec or {}).get('fields', []) if x.get('id') == e[1] or x.get('name') == e[2]), None)
+            if fld is None:
+                return [s]
+            ty = (fld.get('ct') or '').replace('const ', '')
+            this = fr.this.as_atom()
+            loc = ('field', this if this is not None else ('expr', fr.this), fld['name'])
+            if ty.startswith('std::unique_ptr<'):
+                T = _first_targ(ty)
+                return self.destroy_pointee(T, self.load(loc, s, ty), s, fr, tu.fn_loc(fr.fn)) if T else [s]
+            if self.dtor_effect(ty):
+                return self.run_dtor(ty, Poly.atom(loc), s, fr, tu.fn_loc(fr.fn))
             return [s]
         if e[0] == 'I':
             name = e[3]
@@ -736,6 +777,70 @@ class Flow:
                 if self.tracked(s, v) else s
             return s.set(('mem', loc), v)
         return s.set(('mem', loc), v).event(('store', loc, v, tu.loc(node)))
+
+    # ------------------------------------------------------------------ destructors
+    def find_dtor(self, T):
+        for ti, t in enumerate(self.tus):
+            for f in t.functions.values():
+                if f.get('dtor') and not f['dep'] and t.cfg(f) is not None and \
+                        (f.get('rect') == T or (f.get('rect') or '').endswith('::' + T)):
+                    return ti, t, f
+        return None
+
+    def dtor_effect(self, T, depth=0):
+        """can destroying a T run user-written code that rkcommon defines (its destructor or a member's)?"""
+        memo = self.__dict__.setdefault('_dtor_memo', {})
+        if T in memo:
+            return memo[T]
+        memo[T] = False
+        d = self.find_dtor(T)
+        res = False
+        if d is not None and not d[2].get('implicit') and not d[2].get('defaulted'):
+            res = True
+        elif depth < 4:
+            for t in self.tus:
+                rec = t.records_by_type.get(T) or next((r for r in t.records.values() if r['type'].endswith('::' + T)), None)
+                if rec is None:
+                    continue
+                for fld in rec.get('fields', []):
+                    ty = (fld.get('ct') or '').replace('const ', '')
+                    inner = _first_targ(ty) if ty.startswith('std::unique_ptr<') else ty
+                    if inner and self.dtor_effect(inner, depth + 1):
+                        res = True
+                break
+        memo[T] = res
+        return res
+
+    def destroy_pointee(self, T, old, s, fr, loc):
+        """the object `old` (held by a unique_ptr<T>) is destroyed; -> states"""
+        if old is None or not self.dtor_effect(T):
+            return [s]
+        lo, hi = old.range(lambda a: self.bounds(s, a))
+        if hi <= 0:
+            return [s]
+        a = old.as_atom()
+        if lo <= 0 and a is not None and self.factable(a):
+            s_null = s.set(('fact', a), (0, 0))
+            s_live = s.set(('fact', a), (1, hi))
+            return [s_null] + self.run_dtor(T, old, s_live, fr, loc)
+        return self.run_dtor(T, old, s, fr, loc)
+
+    def run_dtor(self, T, this, s, fr, loc):
+        d = self.find_dtor(T)
+        if d is None or fr.depth >= self.MAX_DEPTH:
+            return [s]
+        ti2, tu2, f2 = d
+        fr2 = Frame(ti2, tu2, f2, this, fr.depth + 1, fr)
+        f = fr
+        while f is not None:
+            if f.key == fr2.key:
+                return [s]
+            f = f.parent
+        if self.api(f2['q']):
+            return [s.event(('call', f2['q'], this, (), loc))]
+        n_before = len([e for e in s.get('ev', ()) if e[0] == 'destroy'])
+        s = s.event(('destroy', T, this, loc, n_before))
+        return [s3.event(('destroy-end', T, this, loc, n_before)) for (s3, _rv) in self.run_fn(fr2, s)]
 
     def note_wraps(self, n, s, fr):
         for (wn, text) in self.wrap_sites(n, s, fr):
@@ -842,6 +947,10 @@ class Flow:
 
         # ---- smart pointers as pointer cells
         if sd.get('rec') in SMART:
+            keep = [i for i, a in enumerate(args) if (tu.strip(a) or {}).get('kind') != 'CXXDefaultArgExpr']
+            if len(keep) != len(args):      # reset() == reset(pointer()): defaulted arguments are "no argument"
+                args = [args[i] for i in keep]
+                argv = tuple(argv[i] for i in keep)
             if len(args) == 1 and (is_ctor or name == 'operator='):
                 src = tu.strip(args[0])
                 if src is not None and src.get('kind') == 'CallExpr' and tu.sd(src).get('q') == 'std::move':
@@ -879,7 +988,12 @@ class Flow:
                 if cell is None:
                     return [s.approx('smart pointer assignment to `%s` at %s is not modelled' % (tu.show(obj), loc))]
                 s = self.assign(obj, v, s, fr, None, n)
-                return [s.set(rkey, v)]
+                s = s.set(rkey, v)
+                # reset semantics: the new pointer is installed first, then the previous pointee is destroyed
+                T = _first_targ((tu.sd(obj).get('ct') or '').replace('const ', ''))
+                if sd.get('rec') == 'std::unique_ptr' and T and cur != v:
+                    return self.destroy_pointee(T, cur, s, fr, loc)
+                return [s]
             if name == 'release':
                 if cell is not None:
                     s = self.assign(obj, Poly.const(0), s, fr, None, n)
@@ -940,6 +1054,9 @@ class Flow:
                 rv = objv
             elif rv is None:
                 rv = Poly.atom(('void',))
+            rl = s3.get('$retloc')
+            if rl is not None:
+                s3 = s3.drop(lambda kk: kk == '$retloc').set(('retloc', fr.key, n['id']), rl)
             s3 = s3.set(rkey, rv)
             if s3 not in res:
                 res.append(s3)
